@@ -1,5 +1,5 @@
 """C20: results depend only on arguments: context histories, static context, threads."""
-import importlib
+import importlib, re
 from .common import *
 
 COMBBITS = [258, 264, 260]   # default/asm/verify/o2 (43x6), int128struct (11x6), int64 (2x5)
@@ -60,10 +60,17 @@ def generate(rng, tier, ctx):
     for cb in COMBBITS:
         steps = ['create'] + ['rand:' + h32(rng.rand256()) for _ in range(40)] + ['state', 'call']
         cases.append(('ctx_history %d %s / %s' % (cb, ' '.join(steps), ' | '.join(battery(rng, pl, 6))), ('history', 'chain40')))
-    # static context: every picked op family at least once
+    # static context: every picked op family at least once. Only lines whose own arguments raise no illegal-argument
+    # callback with a full context are used here (decided by the model), so that "the callback fired" identifies the
+    # static context as the cause (a line that already fires one for a NULL / zero argument would be ambiguous).
+    flat = [(o, l) for o in sorted(pl) for l in pl[o]]
+    mo = ctx.model([l for _, l in flat])
+    clean = {}
+    for (o, l), m in zip(flat, mo):
+        if not m.startswith('ERR') and not re.search(r'(^| )i[1-9]', m): clean.setdefault(o, []).append(l)
     for _ in range(3 * n):
-        ops = sorted(pl)
-        bat = [rng.choice(pl[o]) for o in ops]
+        ops = sorted(clean)
+        bat = [rng.choice(clean[o]) for o in ops]
         cases.append(('ctx_static / ' + ' | '.join(bat), ('static', 'all-families')))
     # threads (executed with a TSan build as well)
     for nt in ([2, 4, 16] if tier == 'quick' else [2, 3, 4, 8, 16]):
